@@ -305,12 +305,25 @@ def main(argv=None):
 		print(f'[{prop}] FRAMEWORK ERROR in harness')
 		return 2
 	finally:
+		# after a campaign the teardown waits until the violations have been shrunk (the shrinker re-runs cases
+		# and needs whatever setup() / the campaign cached); on every other path it runs now
+		if (replay or sys.exc_info()[0] is not None) and hasattr(mod, 'teardown'):
+			try:
+				mod.teardown(ctx)
+			except Exception:
+				pass
+
+	try:
+		return _verdict(ctx, mod, prop, tier, seed, repo, st, props, known)
+	finally:
 		if hasattr(mod, 'teardown'):
 			try:
 				mod.teardown(ctx)
 			except Exception:
 				pass
 
+
+def _verdict(ctx, mod, prop, tier, seed, repo, st, props, known):
 	# ---- verdict -----------------------------------------------------------------------------
 	new_violations = []
 	seen = set()
